@@ -320,6 +320,7 @@ def _run(spec, scenario, cfgkw, fs_fault, cancel_at, cancel_how, keep_tmp, sampl
         finally:
             f.__defaults__ = saved
     from harness.sched import instr as _instr
+    core.SUBMIT_YIELD[0] = bool(spec.get('submit_yield'))
     _instr.PIN_TRACKING[0] = bool(sample)
     _instr.STATE_WRITE_YIELD[0] = bool(spec.get('state_write_yield'))
     scen.PROGRESS_YIELD[0] = bool(spec.get('progress_yield'))
